@@ -381,7 +381,18 @@ def merge_render_with_diff3(b, l, r, strategy=None):
         return r, 0
     elif strategy is not None:
         warning("Using diff3 but ignoring strategy %s", strategy)
+    # diff3 glues its conflict markers onto a last line that lacks a newline
+    # ("text>>>>>>> remote"), so make sure all inputs are newline terminated
+    b, l, r = as_text(b), as_text(l), as_text(r)
+    added_newline = not l.endswith('\n') and not r.endswith('\n')
+    b, l, r = [t + '\n' if t and not t.endswith('\n') else t for t in (b, l, r)]
+    if l == r:
+        # The sides only differed in the final newline
+        return l, 0
     merged, status = external_merge_render(cmd.split(), b, l, r)
+    if added_newline and merged.endswith('\n'):
+        # Neither side ended with a newline, so neither should the result
+        merged = merged[:-1]
     return merged, status
 
 
